@@ -904,6 +904,7 @@ matrix_ass_subscr(matrix* self, PyObject* args, PyObject* val)
 
         for (i=0; i < MAT_LGT(Il); i++) {
           spmatrix_getitem_i((spmatrix *)val, i, &n);
+          if (SP_ID(val) == DOUBLE && id == COMPLEX) n.z = n.d;
           write_num[id](self->buffer,
               CWRAP(MAT_BUFI(Il)[i], MAT_LGT(self)), &n, 0);
         }
@@ -1021,6 +1022,7 @@ matrix_ass_subscr(matrix* self, PyObject* args, PyObject* val)
       for (i=0; i < MAT_LGT(Il); i++, cnt++) {
 
         spmatrix_getitem_i((spmatrix *)val, cnt, &n);
+        if (SP_ID(val) == DOUBLE && id == COMPLEX) n.z = n.d;
         write_num[id](self->buffer,CWRAP(MAT_BUFI(Il)[i],self->nrows)  +
             CWRAP(MAT_BUFI(Jl)[j],self->ncols)*self->nrows, &n, 0);
       }
